@@ -218,9 +218,12 @@ impl FSETable {
     /// F3 + F2 (abstract here): parse a table description and build the decoding table
     #[verifier::external_body]
     pub fn build_decoder(&mut self, source: &[u8], max_log: u8) -> (r: Result<usize, FSETableError>)
+        // contract of FSETable::build_decoder: PROVED in unit F2 (on the verbatim body), ASSUMED wherever the table type is abstract (Q2, HU2V)
+        requires max_log <= 9, source@.len() <= 0x1_0000_0000,
         ensures
             final(self).max_symbol == old(self).max_symbol,
             r matches Ok(n) ==> n <= source@.len() && final(self).table_wf() && final(self).accuracy_log != 0,
+
     { unimplemented!() }
 
     /// F2 on the three predefined distributions (abstract here)
@@ -295,7 +298,7 @@ pub fn maybe_update_fse_tables(
     source: &[u8],
     scratch: &mut FSEScratch,
 ) -> (r: Result<usize, DecodeSequenceError>)
-    requires old(scratch).wf(),
+    requires old(scratch).wf(), source@.len() <= 0x1_0000_0000,
     ensures
         r matches Ok(n) ==> n <= source@.len() && final(scratch).wf(),
         // per mode (literal lengths; the other two are symmetric and read the bytes that follow)
